@@ -730,7 +730,17 @@ func c20throttleGraph(c *c20ctx, trailing bool) {
 				mm.viol, mm.det = "Throttle/graph/trailing-trigger-lost", fmt.Sprintf("at time %d a trigger is outstanding (last permission at %d), no timer is armed and the consumer is parked in Next: the trigger can never become a permission", now(), mm.lastPerm)
 				break
 			}
-			switch vrt.Choose(3) {
+			// The monitor reads the instant of a permission when Next has returned. So that this IS the
+			// instant at which the throttle handed it out, no time passes while the consumer is running
+			// (between being woken and parking again): otherwise a consumer that was handed a permission at
+			// 0 and scheduled again at 2 would be recorded at 2, and a legitimate permission at 6 would
+			// look too early (seen in the thorough tier, which keeps the scheduling points before releases).
+			// Consumers that are slow to come back are the business of the script families.
+			k := vrt.Choose(3)
+			if k == 1 && !vrt.ThreadParked(consumer) {
+				k = 0
+			}
+			switch k {
 			case 0:
 				mm.trace = append(mm.trace, fmt.Sprintf("Call@%d", now()))
 				if trailing || now()-mm.lastPerm > 5 {
